@@ -424,3 +424,70 @@ Definition scripted (gen : bool) (ys : list msg) (st : option Z) : hbody :=
 
 Definition impl_of (l : list (str * hbody)) : impl :=
   fun py => assoc_last l py.
+
+(* ---------------------------------------------------------------------------
+   T1: comparison of reflection tables (harness/gen_c11.py: what a probe service rendered by the
+   live plugin does) with the functions above.  Parameterised by the tables so that the harness can
+   also evaluate it on a reflection made during the run (independent of coq/gen/C11Tables.v).
+   --------------------------------------------------------------------------- *)
+Definition flags_method (cs ss : bool) : method := Method [] [] cs ss [] [].
+
+Definition helper_eqb (a c : helper) : bool :=
+  match a, c with
+  | H_unary_unary, H_unary_unary | H_unary_stream, H_unary_stream
+  | H_stream_unary, H_stream_unary | H_stream_stream, H_stream_stream => true
+  | _, _ => false
+  end.
+
+Fixpoint str_pairs_eqb (a c : list (str * str)) : bool :=
+  match a, c with
+  | [], [] => true
+  | (x, y) :: a', (x', y') :: c' => str_eqb x x' && str_eqb y y' && str_pairs_eqb a' c'
+  | _, _ => false
+  end.
+
+Definition routes_of (svc : service) : list (str * str) := map (fun m => (m_name m, route svc m)) (s_methods svc).
+
+Section TablesOk.
+  Variable stub_sites : list (bool * bool * helper * bool).
+  Variable helper_sites : list (helper * card * bool * bool * bool).
+  Variable mapping_sites : list (bool * bool * card * bool).
+  Variable default_status : list (bool * bool * Z).
+  Variable status_unimplemented status_unknown : Z.
+  Variable probe_service : service.
+  Variable probe_stub_routes probe_mapping_routes : list (str * str).
+  Variable bare_service : service.
+  Variable bare_mapping_route : str.
+
+  (* each check: a row for the flags exists, and every row for the flags says what the model says *)
+  Definition stub_site_ok (cs ss : bool) : bool :=
+    existsb (fun '(c, s, h, ok) => Bool.eqb c cs && Bool.eqb s ss && helper_eqb h (stub_helper (flags_method cs ss)) && ok)
+            stub_sites
+    && forallb (fun '(c, s, h, ok) => negb (Bool.eqb c cs && Bool.eqb s ss) || (helper_eqb h (stub_helper (flags_method cs ss)) && ok))
+            stub_sites.
+
+  Definition helper_site_ok (h : helper) : bool :=
+    existsb (fun '(h', c, o1, o2, o3) => helper_eqb h' h && card_eqb c (helper_card h) && o1 && o2 && o3) helper_sites
+    && forallb (fun '(h', c, o1, o2, o3) => negb (helper_eqb h' h) || (card_eqb c (helper_card h) && o1 && o2 && o3)) helper_sites.
+
+  Definition mapping_site_ok (cs ss : bool) : bool :=
+    existsb (fun '(c, s, cd, ok) => Bool.eqb c cs && Bool.eqb s ss && card_eqb cd (mapping_card (flags_method cs ss)) && ok)
+            mapping_sites
+    && forallb (fun '(c, s, cd, ok) => negb (Bool.eqb c cs && Bool.eqb s ss) || (card_eqb cd (mapping_card (flags_method cs ss)) && ok))
+            mapping_sites.
+
+  Definition default_site_ok (cs ss : bool) : bool :=
+    existsb (fun '(c, s, st) => Bool.eqb c cs && Bool.eqb s ss && Z.eqb st ST_UNIMPLEMENTED) default_status
+    && forallb (fun '(c, s, st) => negb (Bool.eqb c cs && Bool.eqb s ss) || Z.eqb st ST_UNIMPLEMENTED) default_status.
+
+  Definition tables_ok_of : bool :=
+    forallb (fun cs => forallb (fun ss => stub_site_ok cs ss && mapping_site_ok cs ss && default_site_ok cs ss) [false; true]) [false; true]
+    && forallb helper_site_ok [H_unary_unary; H_unary_stream; H_stream_unary; H_stream_stream]
+    && Z.eqb status_unimplemented ST_UNIMPLEMENTED && Z.eqb status_unknown ST_UNKNOWN
+    && str_pairs_eqb (routes_of probe_service) probe_stub_routes
+    && str_pairs_eqb (routes_of probe_service) probe_mapping_routes
+    && match s_methods bare_service with
+       | [m] => str_eqb (route bare_service m) bare_mapping_route
+       | _ => false
+       end.
+End TablesOk.
